@@ -127,7 +127,7 @@ int main()
                           (pbc ? "" : "    forceNoPBC on\n") + "  }\n");
       if (!cv) { o << "noconfig\n"; continue; }
       colvarvalue x1(v3(), colvarvalue::type_3vector), x2(v3(), colvarvalue::type_3vector);
-      o << H(cv->dist2(x1, x2)) << " " << vs_hex(cv->dist2_lgrad(x1, x2)) << "\n";
+      o << H(cv->dist2(x1, x2)) << " " << vs_hex(cv->dist2_lgrad(x1, x2)) << " " << vs_hex(cv->dist2_rgrad(x1, x2)) << "\n";
     } else if (cmd == "ISC") {
       colvarvalue x1(nf()), x2(nf()); double l = nf();
       o << vs_hex(colvarvalue::interpolate(x1, x2, l)) << "\n";
@@ -195,7 +195,13 @@ int main()
       std::string const ref4 = "    atoms { atomNumbers 1 2 3 4 }\n    refPositions (1, 0, 0) (0, 1, 0) (0, 0, 1) (-1, -1, -1)\n";
       bool periodic = false;
       if (kind == "distance") body = "    group1 { atomNumbers 1 }\n    group2 { atomNumbers 2 }\n";
-      else if (kind == "dihedral") { body = "    group1 { atomNumbers 1 }\n    group2 { atomNumbers 2 }\n    group3 { atomNumbers 3 }\n    group4 { atomNumbers 4 }\n"; periodic = true; }
+      else if (kind == "dihedral" || kind == "dihedralCoeff2" || kind == "dihedralSum") {
+        // dihedralCoeff2: one periodic component with coefficient 2 (not homogeneous: the variable is a plain scalar);
+        // dihedralSum: two periodic components with coefficient 1 (homogeneous: delegates to the first component)
+        comp = "dihedral";
+        body = "    group1 { atomNumbers 1 }\n    group2 { atomNumbers 2 }\n    group3 { atomNumbers 3 }\n    group4 { atomNumbers 4 }\n"; periodic = true;
+        if (kind == "dihedralCoeff2") body += "    componentCoeff 2.0\n";
+      }
       else if (kind == "spinAngle" || kind == "eulerPhi" || kind == "eulerPsi") { body = ref4; periodic = true; }
       else if (kind == "eulerTheta" || kind == "tilt" || kind == "orientationAngle" || kind == "orientation") body = ref4;
       else if (kind == "polarPhi") { body = "    atoms { atomNumbers 1 }\n"; periodic = true; }
@@ -213,7 +219,9 @@ int main()
       } else { o << "?\n"; continue; }
       if (periodic) body += wbuf;
       char kb[256]; snprintf(kb, sizeof(kb), "cd %s %.17g", kind.c_str(), wc);
-      colvar *cv = get_cv(kb, extra + "  " + comp + " {\n" + body + "  }\n");
+      std::string cvconf = extra + "  " + comp + " {\n" + body + "  }\n";
+      if (kind == "dihedralSum") cvconf += "  " + comp + " {\n" + body + "  }\n";
+      colvar *cv = get_cv(kb, cvconf);
       if (!cv) { o << "noconfig\n"; continue; }
       auto rd = [&](colvarvalue const &proto) {
         colvarvalue x(proto);
